@@ -2,16 +2,20 @@ use crate::run::Suite;
 use std::path::Path;
 
 pub mod c21;
+pub mod c23;
 
 pub fn for_property(p: &str) -> Vec<Suite> {
     match p {
         "C21" => c21::suites(),
+        "C23" => c23::suites(),
         _ => vec![],
     }
 }
 
 /// Regenerate `Generated/*.lean` from the running implementation (only rewritten when changed).
-pub fn extract_all(_dir: &Path) {}
+pub fn extract_all(dir: &Path) {
+    c23::extract(dir);
+}
 
 #[allow(dead_code)]
 pub fn write_if_changed(path: &Path, content: &str) {
